@@ -224,7 +224,7 @@ pub fn records() -> impl Strategy<Value = Vec<ZRec>> {
     })
 }
 
-fn case_strategy() -> impl Strategy<Value = Case> {
+pub fn case_strategy() -> impl Strategy<Value = Case> {
     (records(), prop_oneof![1 => Just(Vec::new()), 8 => prop::collection::vec(any::<u16>(), 0..400)]).prop_map(|(records, tape)| Case { records, tape })
 }
 
@@ -295,7 +295,7 @@ fn token() -> impl Strategy<Value = Vec<u8>> {
     ]
 }
 
-fn raw_case() -> impl Strategy<Value = RawCase> {
+pub fn raw_case() -> impl Strategy<Value = RawCase> {
     prop_oneof![
         // token soup
         5 => prop::collection::vec((token(), prop_oneof![4 => Just(b" ".to_vec()), 1 => Just(Vec::new()), 1 => Just(b"\n".to_vec())]), 0..40).prop_map(|v| RawCase { text: v.into_iter().flat_map(|(a, b)| [a, b].concat()).collect() }),
